@@ -77,6 +77,8 @@ func runC04(c *Ctx) {
 	ruleLookup(c, "LOOKUP")
 	ruleTeardown(c, "TEARDOWN")
 	ruleSoleDeleter(c)
+	// "an allowed destination": what the default validator allows is decided by the private-network table
+	ruleTable(c)
 }
 
 func runC05(c *Ctx) {
@@ -447,6 +449,36 @@ func ruleTable(c *Ctx) {
 					}
 				}
 			}
+		}
+	}
+	// the membership function may delegate to the standard library: (net.IP).IsPrivate covers exactly RFC 1918 and RFC 4193
+	// (documented, stable since Go 1.17) — and not the shared address space 100.64.0.0/10
+	if ipf := p.Fn("net.IsPrivateAddress"); ipf != nil && len(lits) == 0 {
+		deleg, n := true, 0
+		for _, r := range eng.Returns(ipf) {
+			n++
+			call, ok := p.Resolve(r.Results[0]).(*ssa.Call)
+			if !ok || eng.CalleeName(&call.Call) != "(net.IP).IsPrivate" || !eng.IsParam(p.Resolve(call.Call.Args[0]), ipf, 0) {
+				deleg = false
+			}
+		}
+		if deleg && n > 0 {
+			var nets []*net.IPNet
+			for _, sp := range []string{"10.0.0.0/8", "172.16.0.0/12", "192.168.0.0/16", "fc00::/7"} {
+				_, nn, _ := net.ParseCIDR(sp)
+				nets = append(nets, nn)
+			}
+			for _, rq := range requiredPrivate {
+				_, rn, _ := net.ParseCIDR(rq)
+				covered := false
+				for _, nn := range nets {
+					if contains(nn, rn) {
+						covered = true
+					}
+				}
+				c.Check("TABLE", "required:"+rq+":covered", p.Pos(ipf.Pos()), covered, "the private-address test (delegated to net.IP.IsPrivate) does not cover "+rq+": addresses of that range can be dialed")
+			}
+			return
 		}
 	}
 	if !hasParse {
